@@ -261,7 +261,7 @@ def run(ctx, V):
                      3: "workers spawned", 5: "preparation pass"}[code]))
             V.disagreement(rel, dict(kind=kind, depth=depth, table=[list(p) for p in table], apex=list(apex), sub=sub,
                                      par=par, pcap=pcap, chosen=[list(ch) for _e, ch in r["trace"]]),
-                           "model replay of the recorded trace; theorems walk_safety / walk_terminal",
+                           "model replay of the recorded trace; theorems walk_par_safety / walk_par_terminal",
                            dict(outcome=r["outcome"], callbacks=r["cb"][:12], why=why), bool(why))
     n_fork = real_fork_runs(rng, 4 if quick else 30, V)
     samples = [dict(pyramid=[c[0], c[1], [list(p) for p in c[2]][:10], list(c[3]), c[4]], par=c[5], pcap=c[6],
